@@ -306,6 +306,15 @@ pub fn bind_line(p: ParsedTestCase, sigs: &[SigSpec]) -> (Vec<String>, Option<Te
 }
 
 fn show_outputs(row: &digital_test_runner::DataRow<'_>) -> String {
+    // `check()`, `is_checked()` and `failing_outputs()` are code of the crate too: a panic in them is a finding, not a
+    // harness failure
+    match catch_unwind(AssertUnwindSafe(|| show_outputs_inner(row))) {
+        Ok(s) => s,
+        Err(_) => format!("[panic-in-verdict:{}]", take_panic()),
+    }
+}
+
+fn show_outputs_inner(row: &digital_test_runner::DataRow<'_>) -> String {
     let failing: Vec<*const digital_test_runner::OutputResultEntry<'_>> =
         row.failing_outputs().map(|e| e as *const _).collect();
     let v: Vec<String> = row
